@@ -21,6 +21,7 @@ func NewEnv() *Env {
 func NewEnclosedEnv(outer *Env) *Env {
 	env := NewEnv()
 	env.outer = outer
+	verifEnv("enclose", env, outer, "", nil, true)
 	return env
 }
 
@@ -68,20 +69,24 @@ func (e *Env) Get(name string) (Object, bool) {
 
 func (e *Env) Set(key string, val Object) error {
 	if key == "loop" {
+		verifEnv("set", e, nil, key, val, false)
 		return errors.New(fail.ErrLoopVariableIsReserved)
 	}
 
 	if oldVar, ok := e.isTypeMismatch(key, val); ok {
+		verifEnv("set", e, nil, key, val, false)
 		return e.variableMismatchError(key, oldVar, val)
 	}
 
 	e.store[key] = val
+	verifEnv("set", e, nil, key, val, true)
 
 	return nil
 }
 
 func (e *Env) SetLoopVar(pairs map[string]Object) {
 	e.store["loop"] = &Obj{Pairs: pairs}
+	verifEnv("loop", e, nil, "loop", e.store["loop"], true)
 }
 
 func (e *Env) isTypeMismatch(key string, val Object) (Object, bool) {
